@@ -32,7 +32,11 @@ VARIABLE vec
 Case(t, e) == [t |-> t, s |-> Render(t), env |-> e, r |-> Eval(t, e)]
 \* Initial states are seeds (the first item of the template); the cases themselves are generated as their
 \* successors, so that all TLC workers share the enumeration (initial states are computed by one thread).
-Seeds == {<<>>} \cup {<<i>> : i \in Item1}
+\* literal text with balanced braces inside a default / replacement / message (Go templates, JSON): the substitution ends at the
+\* brace that closes it, not at the first closing brace
+BraceLits == {"{{.N}}", "{}", "{\"a\":1}"}
+BraceItems == [k : {"op"}, n : Names, op : Ops, t : {<<[k |-> "lit", c |-> c]>> : c \in BraceLits}]
+Seeds == {<<>>} \cup {<<i>> : i \in Item1 \cup BraceItems}
 Init == \E sd \in Seeds : vec = [seed |-> sd]
 IsSeed == "seed" \in DOMAIN vec
 Next == /\ IsSeed
